@@ -40,6 +40,13 @@ def make(kind: str, repo: str, dst: str) -> None:
             for a, b in PRIVATE.items():
                 s = re.sub(rf'\b{a}\b', b, s)
             open(f, 'w').write(s)
+    elif kind == 'combined-safe':
+        # rewrites that are behaviour-preserving on *any* code (expand-aug is only so where every augmented
+        # assignment is on Python numbers, which holds for the pinned tree but not for arbitrary changes)
+        tmp = out + '_1'
+        subprocess.run([PY, os.path.join(HERE, 'twin_transforms.py'), src, tmp, 'invert-if,flip-eq,else-return,extract-var,to-keyword'], check=True, capture_output=True)
+        subprocess.run([PY, os.path.join(HERE, 'alpha_rename.py'), tmp, out, 'ALL', '_q'], check=True, capture_output=True)
+        shutil.rmtree(tmp)
     elif kind == 'combined':
         tmp = out + '_1'
         subprocess.run([PY, os.path.join(HERE, 'twin_transforms.py'), src, tmp, 'invert-if,flip-eq,else-return,extract-var,expand-aug,to-keyword'], check=True, capture_output=True)
